@@ -117,7 +117,7 @@ class DefaultResolver(CommandResolver):
         arguments_to_test = []
         token = next(tokens, None)
 
-        while token:
+        while token is not None:
             # "--" stops argument parsing
             if token == "--":
                 break
@@ -148,7 +148,7 @@ class DefaultResolver(CommandResolver):
         options_to_test = []
         token = next(tokens, None)
 
-        while token:
+        while token is not None:
             # "--" stops option parsing
             if token == "--":
                 break
